@@ -244,7 +244,35 @@ class ExtMixin(object):
             return Const(str(int(v.const())))
         return StrV(SFmt("s", v))
 
-    x_repr = x_str
+    def x_repr(self, args, kwargs, node, env):
+        c = self._concrete_repr(args[0])
+        if c is not None:
+            return Const(c)
+        return self.x_str(args, kwargs, node, env)
+
+    def _concrete_repr(self, v):
+        """repr() of a fully concrete value (used as a dictionary key or compared: what matters is that equal values give
+        equal text and different values different text)"""
+        if isinstance(v, Const):
+            return repr(v.v)
+        if isinstance(v, Num):
+            c = v.const()
+            if c is None:
+                return None
+            return repr(float(c)) if (v.inexact or c.denominator != 1) else repr(int(c))
+        if isinstance(v, ListV) and not getattr(v, "tail", None):
+            parts = [self._concrete_repr(i) for i in v.items]
+            if any(p is None for p in parts):
+                return None
+            if v.kind == "tuple":
+                return "(" + ", ".join(parts) + ("," if len(parts) == 1 else "") + ")"
+            return "[" + ", ".join(parts) + "]"
+        if isinstance(v, NTV):
+            parts = [self._concrete_repr(i) for i in v.values]
+            if any(p is None for p in parts):
+                return None
+            return "%s(%s)" % (v.cls.name, ", ".join("%s=%s" % (f_, p) for f_, p in zip(v.cls.fields, parts)))
+        return None
 
     def x_bool(self, args, kwargs, node, env):
         t = self.truth(args[0])
